@@ -79,6 +79,12 @@ def oracle_methods(ck, tier, deep):
                     if ds > 1e-12:
                         ck.violation(dict(sig, clause="dr-scaling"), dict(base, dr=dr, X=X.tolist()),
                                      f"dr={dr}: result is not {'dr*' if d == 'forward' else '(1/dr)*'}T(dr=1); rel {ds:.3g}")
+                    # a single row given as a 1-D array is the same transform (with the same dr) as the row inside an image
+                    T1 = T(X[0].copy(), dr=dr)
+                    if np.shape(T1) != (n,) or np.abs(np.asarray(T1) - Tdr[0]).max() > 1e-12 * (np.abs(Tdr[0]).max() + 1e-300):
+                        ck.violation(dict(sig, clause="1d-row"), dict(base, dr=dr, row=X[0].tolist()),
+                                     f"dr={dr}: the first row as a 1-D array gives a different result than inside the image "
+                                     f"({'shape ' + str(np.shape(T1)) if np.shape(T1) != (n,) else np.abs(np.asarray(T1) - Tdr[0]).max()})")
                     # integer input = its float copy
                     Xi = rng.integers(0, 200, size=(rows, n))
                     for dt in (np.uint8, np.int32):
@@ -104,7 +110,7 @@ def oracle_nnls(ck, tier, deep):
         src = np.abs(rng.normal(size=(2, n))) * (rng.random((2, n)) < 0.7)
         for degree in (0, 1, 2, 3):
             P = quiet(abel.daun.daun_transform, src, degree=degree, direction="forward") + 0.05 * rng.normal(size=(2, n))
-            lam = float(rng.choice([0.01, 0.5, 3.0, 250.0]))
+            lam = float(rng.choice([0.01, 0.5, 3.0, 250.0, 1e-9, 1e-12, 1e9]))           # any positive constant (small physical units too)
             ck.count(("S.nnls.daun", degree, n), suite="S.nnls")
             A = quiet(abel.daun.daun_transform, P, degree=degree, reg="nonneg")
             B = quiet(abel.daun.daun_transform, lam * P, degree=degree, reg="nonneg")
@@ -112,6 +118,13 @@ def oracle_nnls(ck, tier, deep):
             if dev > 1e-8 or A.min() < 0:
                 ck.violation(dict(site="daun", clause="nnls-homogeneity"), dict(degree=degree, lam=lam, P=P.tolist()),
                              f"daun reg='nonneg': T(λP) != λT(P) (rel {dev:.3g}) or negative output {A.min():.3g}")
+            # each row is solved on its own: neighbouring rows that are nearly (not exactly) equal keep their own solutions
+            P3 = np.vstack([P[0], P[0] * (1 + 3e-6), P[1]])
+            C = quiet(abel.daun.daun_transform, P3, degree=degree, reg="nonneg")
+            alone = [quiet(abel.daun.daun_transform, row, degree=degree, reg="nonneg") for row in P3]
+            if max(np.abs(C[i] - alone[i]).max() for i in range(3)) > 1e-12 * max(1.0, np.abs(C).max()):
+                ck.violation(dict(site="daun", clause="nnls-row-independence"), dict(degree=degree, P=P3.tolist()),
+                             "daun reg='nonneg': a row transformed inside an image differs from the same row transformed alone")
     for _ in range(3 if not deep else 12):
         n = int(rng.choice([11, 15, 21]))
         im = np.abs(rng.normal(size=(n, n)))
@@ -176,6 +189,20 @@ def oracle_tools(ck, tier, deep):
                 ck.violation(sig, dict(tool=label, a=a, b=b, X=X.tolist(), Y=Y.tolist()),
                              f"{label}: T(aX+bY) != aT(X)+bT(Y), relative defect {df:.3g}")
                 break
+            # detector counts: an integer image is transformed as its float64 copy (centring with fractional origins included)
+            if label.startswith("Transform/"):
+                Xi = np.round(X * 40).astype([np.int32, np.uint16, np.int64][int(rng.integers(0, 3))])
+                if Xi.dtype == np.uint16:
+                    Xi = np.abs(np.round(X * 40)).astype(np.uint16)
+                try:
+                    ti, tf = np.asarray(quiet(T, Xi), float), np.asarray(quiet(T, Xi.astype(np.float64)), float)
+                except Exception as e:
+                    ck.violation(dict(sig, clause="exception"), dict(tool=label, dtype=str(Xi.dtype)), f"{type(e).__name__}: {e}")
+                    break
+                if np.abs(ti - tf).max() > 1e-12 * max(1.0, np.abs(tf).max()):
+                    ck.violation(dict(sig, clause="integer-dtype"), dict(tool=label, dtype=str(Xi.dtype), X=Xi.tolist()),
+                                 f"{label}: {Xi.dtype} image differs from its float64 copy by {np.abs(ti - tf).max():.3g}")
+                    break
 
 
 def corr_recursions(ck, tier):
